@@ -31,7 +31,7 @@ func init() {
 			return 20000
 		},
 		Run:      runC19,
-		Required: []string{"prepared_sends_decoded", "twin_comparisons", "variants_used", "concurrent_runs_with_writecontrol_pingers", "level_sweeps"},
+		Required: []string{"prepared_sends_decoded", "twin_comparisons", "variants_used", "concurrent_runs_with_writecontrol_pingers", "level_sweeps", "laggards_with_an_expired_write_deadline_sent_first"},
 		Assumptions: []string{
 			"the twin connection is a second Conn with identical role and settings written with WriteMessage; frame boundaries are not compared, only decoded type, payload and compressed flag",
 		},
@@ -153,6 +153,14 @@ func runC19(ctx *core.Ctx, out *core.Out) {
 	if err != nil {
 		fail("valid-prepared-refused", fmt.Sprintf("NewPreparedMessage(type %d, %d bytes) failed: %v", typ, size, err), nil)
 		return
+	}
+	if ctx.Idx%6 == 1 {
+		// a laggard goes first: a connection whose write deadline has already passed (its send may
+		// fail); every healthy connection of the same kind must still get the whole message
+		lag := newConn(xport.New(nil), conns[0].cfg, &TrackPool{}, 98)
+		lag.SetWriteDeadline(time.Now().Add(-time.Second))
+		lag.WritePreparedMessage(pm)
+		out.Count("laggards_with_an_expired_write_deadline_sent_first", 1)
 	}
 	apply := func(cn *c19Conn, op c19Op) {
 		switch op.Kind {
